@@ -129,6 +129,7 @@ func cmdCheck(args []string) int {
 	verbose := fs.Bool("v", false, "verbose")
 	dump := fs.String("dump", "", "write the SMT scripts of checks whose name matches to .work")
 	dumpLevel := fs.Int("dump-level", -1, "relevance level of the dumped scripts (-1: full)")
+	genOnly := fs.Bool("gen-only", false, "generate the obligations, print the engine's notes, do not call a solver (development aid; exits 3)")
 	if len(args) < 1 {
 		usage()
 	}
@@ -206,6 +207,20 @@ func cmdCheck(args []string) int {
 				os.WriteFile(filepath.Join(verifDir, ".work", fmt.Sprintf("dump_%s_%d.smt2", sanitize(c.Name), n)), []byte(c.ScriptLevel(10000, false, *dumpLevel)), 0o644)
 			}
 		}
+	}
+	if *genOnly {
+		var ns []string
+		for n := range x.notes {
+			ns = append(ns, n)
+		}
+		sort.Strings(ns)
+		for _, n := range ns {
+			fmt.Println("  note:", n)
+		}
+		for _, r := range reports {
+			fmt.Printf("  func %-60s paths=%d checks=%d %s\n", r.Name, r.Paths, r.Checks, r.Err)
+		}
+		os.Exit(3)
 	}
 	opts.hints = readHints(prop)
 	obls, covers, stats := discharge(x.checks, opts)
